@@ -275,3 +275,13 @@ def run(cx):
         cx.ob('EXPR', 'DiscreteDomainTolMap::get:index', e is not None, 'the zone returned is tol_zones[i] for the i that domain.index_of(x) returned', where=b.file, found=r)
         e = find('(agg *Option::Some (0 (index (self tol_zones) (sub (len (self tol_zones)) 1))))', r)
         cx.ob('EXPR', 'DiscreteDomainTolMap::get:last', e is not None, 'beyond the end the last zone is returned', where=b.file, found=r)
+
+
+def run_thorough(cx):
+    """thorough tier: the generic evaluators this property relies on must fire on their positive fixture twins"""
+    from rules import fixture_check as FX
+    FX.txn(cx)
+    FX.comut(cx)
+    FX.enc(cx)
+    from vpa import witness as W
+    W.check(cx, ['C16DeviationSetNoIndexMut', 'C16CloudArraysPrivate'])
